@@ -9,10 +9,10 @@ SJ_VERIFY_LOOP = {"secp256k1_surjectionproof_verify": {"for (i = 0; i < n_used_p
     "decreases": "n_used_pubkeys - i"}}}
 def _limbs(a, b, fes):
     return " && ".join("%s.%s.n[%d] == %s.%s.n[%d]" % (a, f, k, b, f, k) for f in fes for k in range(5)) + " && %s.infinity == %s.infinity" % (a, b)
-PK_WATCH = "(g_el_i < j ==> (g_aj_seen == 1 && g_aj_roff == g_el_i * 128))"
+PK_WATCH = "(g_el_i < j ==> (g_aj_seen == 1 && pubkeys[g_el_i].x.n[0] == g_aj_r.x.n[0] && pubkeys[g_el_i].y.n[0] == g_aj_r.y.n[0]))"
 def pk_loop(ring):
     return {"secp256k1_surjection_compute_public_keys": {"for (i = 0; i < n_input_tags; i++)": {
-        "assigns": "i, j, __CPROVER_object_whole(pubkeys), " + ("*ring_input_index, " if ring else "") + "g_aj_n, g_aj_roff, g_aj_a, g_aj_b, g_aj_seen",
+        "assigns": "i, j, __CPROVER_object_whole(pubkeys), " + ("*ring_input_index, " if ring else "") + "g_aj_n, g_aj_roff, g_aj_a, g_aj_r, g_aj_b, g_aj_seen",
         "invariants": "i <= n_input_tags && j == verif_sj_rank[i] && g_aj_n == j && j <= n_pubkeys && " + PK_WATCH + " && (g_el_i >= j ==> g_aj_seen == 0)"
             + (" && ((input_index < i && ((used_tags[input_index / 8] >> (input_index % 8)) & 1)) ==> *ring_input_index == verif_sj_rank[input_index])" if ring else ""),
         "decreases": "n_input_tags - i"}}}
@@ -22,21 +22,21 @@ GM_LOOP = {"secp256k1_surjection_genmessage": {"for (i = 0; i < n_input_tags; i+
     "invariants": "i <= n_input_tags && sha256_en.bytes == 33 * (unsigned long)i && g_fin_n == 0 && (i == 0 ==> (g_h_fresh == 1 && g_w_started == 0 && g_w_hit == 0 && sha256_en.s[0] == 0x6a09e667 && sha256_en.s[7] == 0x5be0cd19)) && (i > 0 ==> (g_h_fresh == 0 && g_w_started == 1 && g_w_b0 == 0 && g_w_s0 == 0x6a09e667 && g_w_s7 == 0x5be0cd19)) && (g_wpos < sha256_en.bytes ==> (g_w_hit == 1 && g_w_byte == verif_sj_expect)) && (g_wpos >= sha256_en.bytes ==> g_w_hit == 0)",
     "decreases": "n_input_tags - i"}}}
 UNITS = [
-    U("C11.parse", ["C11", "C07"], "harness/C11/parse.c", "h_sjp_parse", replace=["memcpy", CB],
+    U("C11.parse", ["C11", "C07"], "harness/C11/parse.c", "h_sjp_parse", defs=["EL_MEMCPY_FAST"], assumed=["memcpy"], replace=["memcpy", CB],
       functions=["secp256k1_surjectionproof_parse"], timeout=900, min_obl=252, unwind=34,
       closed_by="no loop left in the function under contract (count_bits_set replaced by its proved contract); spec loops unwound",
       note="accept set equals the canonical-encoding spec for all byte strings of length <= 9000; memcpy replaced by the bounds+ghost-index contract"),
-    U("C11.parse_content", ["C11"], "harness/C11/parse.c", "h_sjp_parse", replace=["memcpy", CB], defs=["EL_CONTENT"], tier="thorough",
+    U("C11.parse_content", ["C11"], "harness/C11/parse.c", "h_sjp_parse", assumed=["memcpy"], replace=["memcpy", CB], defs=["EL_MEMCPY_FAST", "EL_CONTENT"], tier="thorough",
       functions=["secp256k1_surjectionproof_parse"], timeout=3600, min_obl=230, unwind=34,
       note="as C11.parse plus byte-for-byte content of bitmap and signature fields (ghost index into the 8 KiB field)"),
     U("C11.count_bits", ["C11", "C07"], "harness/C11/count_bits.c", "h_count_bits", enforce=[CB], tier="thorough", solver="cadical",
       functions=[CB], timeout=1800, min_obl=40, unwind=34,
       closed_by="full unwinding: count <= 32 (callers pass ceil(n_inputs/8), n_inputs <= 256)",
       note="population-count equivalence is a hard SAT instance (140-220 s)"),
-    U("C11.serialize", ["C11", "C07"], "harness/C11/serialize.c", "h_sjp_serialize", replace=["memcpy", CB],
+    U("C11.serialize", ["C11", "C07"], "harness/C11/serialize.c", "h_sjp_serialize", defs=["EL_MEMCPY_FAST"], assumed=["memcpy"], replace=["memcpy", CB],
       functions=["secp256k1_surjectionproof_serialize", "secp256k1_surjectionproof_serialized_size", "secp256k1_surjectionproof_n_total_inputs", "secp256k1_surjectionproof_n_used_inputs"],
       timeout=900, min_obl=251, unwind=34, note="every valid proof object and every capacity <= 9000"),
-    U("C11.roundtrip", ["C11"], "harness/C11/serialize.c", "h_sjp_roundtrip", replace=["memcpy", CB], defs=["EL_MEMCPY_EXACT32"], tier="thorough",
+    U("C11.roundtrip", ["C11"], "harness/C11/serialize.c", "h_sjp_roundtrip", assumed=["memcpy"], replace=["memcpy", CB], defs=["EL_MEMCPY_FAST", "EL_MEMCPY_EXACT32"], tier="thorough",
       functions=["secp256k1_surjectionproof_parse", "secp256k1_surjectionproof_serialize"], timeout=5400, min_obl=314, unwind=34,
       note="serialize(parse(b)) == b for every accepted b of length <= 9000 (1070 s measured)"),
     U("C11.compute_pubkeys_noring", ["C11", "C07"], "harness/C11/pubkeys.c", "h_sjp_pubkeys", replace=["secp256k1_gej_add_ge_var"], assumed=["secp256k1_gej_add_ge_var"],
@@ -60,10 +60,10 @@ UNITS = [
       timeout=1800, min_obl=1166, unwind=66, tier="thorough",
       note="gates and wiring of proof generation with the tag scan and the scalar write-back loop unwound"),
     U("C11.verify_gate_b8", ["C11", "C07"], VER, "h_sjp_verify", replace=VER_REPL, assumed=["secp256k1_borromean_verify"], defs=["EL_BOUND=8"],
-      functions=VER_FUNCS, timeout=900, min_obl=679, unwind=34, bounded="n_inputs<=8",
+      functions=VER_FUNCS, solver="cadical", timeout=900, min_obl=679, unwind=34, bounded="n_inputs<=8",
       note="scalar loop unwound for proofs over at most 8 inputs: concrete counterexample (ring position, bytes) when a gate is broken"),
     U("C11.verify_gate", ["C11", "C07"], VER, "h_sjp_verify", replace=VER_REPL, assumed=["secp256k1_borromean_verify"],
-      loop_contracts=SJ_VERIFY_LOOP, functions=VER_FUNCS, timeout=1800, min_obl=671, unwind=34, tier="quick",
+      loop_contracts=SJ_VERIFY_LOOP, functions=VER_FUNCS, solver="cadical", timeout=1800, min_obl=671, unwind=34, tier="quick",
       closed_by="loop contract on the scalar loop (engine-supplied, no /repo edit): invariant with ghost ring position, decreases clause",
       note="every valid proof object (n_inputs <= 256, up to 256 used inputs) and any tag count"),
 ]
